@@ -83,6 +83,8 @@ type Client struct {
 	PeerEOF bool // the proxy closed it
 	Garbage bool
 	raw     bool
+	Paused  bool // a slow reader: does not read until resumed
+	writing int32
 }
 
 var proxyErrs = map[string]bool{
@@ -233,6 +235,20 @@ func (cl *Cluster) Concrete(c string, i int, r AbsReq) []byte {
 				if pad > 0 {
 					a[x] += "|" + strings.Repeat("x", pad-1)
 				}
+			} else if strings.HasPrefix(s, "hex:") {
+				hb, _ := hex.DecodeString(s[4:])
+				a[x] = string(hb)
+			} else if strings.HasPrefix(s, "rnd:") {
+				// "rnd:N:seed": N deterministic pseudo-random bytes
+				var n, seed int
+				fmt.Sscanf(s[4:], "%d:%d", &n, &seed)
+				rb := make([]byte, n)
+				st := uint32(seed)*2654435761 + 12345
+				for k := range rb {
+					st = st*1664525 + 1013904223
+					rb[k] = byte(st >> 24)
+				}
+				a[x] = string(rb)
 			} else if strings.HasPrefix(s, "#") {
 				// "#N": N bytes of filler
 				n, _ := strconv.Atoi(s[1:])
@@ -272,7 +288,7 @@ func (c *Client) Write(b []byte) error {
 
 // Drain reads whatever has arrived without blocking, parses complete replies and logs them.
 func (c *Client) Drain(cl *Cluster, log *EventLog, rawLog bool) {
-	if c.Closed || c.PeerEOF {
+	if c.Closed || c.PeerEOF || c.Paused {
 		return
 	}
 	tmp := make([]byte, 65536)
